@@ -44,6 +44,7 @@ class Check:
         self.assumptions = []
         self._known = [k for k in load_known() if k["property"] == pid]
         self._seen_sigs = set()
+        self.is_replay = False
         os.makedirs(os.path.join(WORK, "replays"), exist_ok=True)
 
     # ---- bookkeeping -------------------------------------------------------
@@ -126,7 +127,7 @@ class Check:
             "violations": len(self.violations),
         }
         # runs against a scratch copy of the repository (VERIF_REPO set) must not overwrite the evidence of /repo
-        evdir = os.path.join(VERIF, "evidence") if os.environ.get("VERIF_REPO", "/repo") == "/repo" else os.path.join(WORK, "evidence")
+        evdir = os.path.join(VERIF, "evidence") if (os.environ.get("VERIF_REPO", "/repo") == "/repo" and not self.is_replay) else os.path.join(WORK, "evidence")
         os.makedirs(evdir, exist_ok=True)
         with open(os.path.join(evdir, self.pid + ".json"), "w") as f:
             json.dump(ev, f, indent=1, sort_keys=True)
@@ -159,6 +160,7 @@ def main(run_fn, pid, level="model_checking"):
     seed = args.seed if args.seed is not None else int(os.environ.get("VERIF_SEED", "1") or 1)
     tier = args.tier if args.tier in ("quick", "thorough") else "quick"
     chk = Check(pid, tier, seed, level)
+    chk.is_replay = bool(args.replay)     # a replay re-runs one artefact: it must not overwrite the evidence of a full run
     try:
         run_fn(chk, replay=args.replay)
     except InfraError as e:
